@@ -60,6 +60,9 @@ pub struct Harness {
     pub user_c: String,
     /// per function: was the level-2 check generated for the argument / for the result
     pub level2: Vec<(bool, bool)>,
+    /// per function: the argument owns heap data but the header declares no free helper for the
+    /// export-side argument type (name of that type)
+    pub free_missing: Vec<Option<String>>,
 }
 
 fn conv_to_u64(t: &CTy, e: &str) -> Result<String, String> {
@@ -500,7 +503,7 @@ pub fn echo_exports(
     funcs: &[FuncPlan],
     cfg: &CConfig,
     want_level2: bool,
-) -> Result<(String, Vec<(bool, bool)>), String> {
+) -> Result<(String, Vec<(bool, bool)>, Vec<Option<String>>), String> {
     if hdr.exports.len() != funcs.len() || hdr.imports.len() != funcs.len() {
         return Err(format!(
             "header declares {} imported / {} exported functions, the world has {}",
@@ -512,6 +515,7 @@ pub fn echo_exports(
     let l2 = L2 { hdr, utf16: cfg.utf16 };
     let mut o = String::new();
     let mut levels = Vec::new();
+    let mut free_missing = Vec::new();
     for (k, f) in funcs.iter().enumerate() {
         let exp = &hdr.exports[k];
         let imp = &hdr.imports[k];
@@ -591,6 +595,11 @@ pub fn echo_exports(
             let guard = if pn.starts_with("maybe_") { format!("if ({pn}) ") } else { String::new() };
             let eh = free_helper(hdr, &pt.deref());
             let ih = free_helper(hdr, &imp.params[0].0.deref());
+            let owned_heap = match (&f.ty, pn.starts_with("maybe_")) {
+                (Ty::Option(inner), true) => inner.contains_heap(),
+                _ => f.ty.contains_heap(),
+            };
+            free_missing.push((eh.is_none() && owned_heap).then(|| pt.deref().text()));
             match (eh, ih) {
                 (Some(e), Some(i)) if e.name != i.name => {
                     writeln!(
@@ -607,6 +616,9 @@ pub fn echo_exports(
                 (None, None) => {}
             }
         }
+        if free_missing.len() <= k {
+            free_missing.push(None);
+        }
         writeln!(o, "  verif_vt.mark(3, {k});").unwrap();
         if !exp.ret.is_void() {
             if exp.ret.base != imp.ret.base && matches!(hdr.resolve(&exp.ret.base), (_, Some(TypeDef::Struct(_)))) {
@@ -618,7 +630,7 @@ pub fn echo_exports(
         writeln!(o, "}}\n").unwrap();
         levels.push((arg_exprs.is_some(), ret_exprs.is_some()));
     }
-    Ok((o, levels))
+    Ok((o, levels, free_missing))
 }
 
 pub fn user_c(
@@ -635,7 +647,7 @@ pub fn user_c(
     s.push_str(PRELUDE);
     s.push_str(&import_shims(src)?);
     s.push_str(&export_table(src)?);
-    let (e, level2) = echo_exports(hdr, funcs, cfg, want_level2)?;
+    let (e, level2, free_missing) = echo_exports(hdr, funcs, cfg, want_level2)?;
     s.push_str(&e);
-    Ok(Harness { user_c: s, level2 })
+    Ok(Harness { user_c: s, level2, free_missing })
 }
